@@ -102,6 +102,45 @@ def run_rt(exe, items, verdict):
     return events, ok
 
 
+def long_values(exe, verdict, tier):
+    """values SET through the API (so never shortened by an earlier read) whose lines cross the stdio buffer size: single-line,
+    multi-line with a long first / middle / last line; written with every delimiter/comment pair and read back"""
+    B = 8192
+    lens = [B - 2, B - 1, B, B + 1, 2 * B + 3] + ([70000] if tier == "thorough" else [20000])
+    cases = []
+    meta = []
+    for n in lens:
+        body = ("H" + "m" * (n - 2) + "T")
+        for shape, val in (("single", body), ("first", body + "\n tail"), ("last", "head\n " + body), ("middle", "head\n " + body + "\n tail")):
+            for d, c in (("=", "#"), (":", ";"), (" ", "#")):
+                if d == " " and shape != "single":
+                    continue
+                R = ROOT + "/lv%d" % (len(cases) % 16)
+                cases.append((len(cases), ["newkf 1 %s %s" % (hx(d), hx(c)), "set String 1 %s %s %s" % (hx("net"), hx("hosts"), hx(val)), "set String 1 %s %s %s" % (hx("net"), hx("z"), hx("1")),
+                                           "mkdir %s" % hx(R), "write 1 %s %s" % (hx(R), hx("long.conf")), "readfile 2 %s %s %s" % (hx(R + "/long.conf"), hx(d), hx(c)),
+                                           "get String 2 %s %s" % (hx("net"), hx("hosts")), "get String 2 %s %s" % (hx("net"), hx("z")), "free 1", "free 2"]))
+                meta.append((n, shape, d, c, val))
+    res = core.run_cases(exe, cases, per_case_timeout=60)
+    ok = 0
+    for i, (n, shape, d, c, val) in enumerate(meta):
+        out = res.get(i)
+        if out is None or out["crash"]:
+            verdict.violation("C07:long:crash:%s" % shape, {"kind": "long", "len": n, "shape": shape, "d": d, "c": c, "crash": (out or {}).get("crash")},
+                              "write/read of a %s value with a line of %d bytes crashed\n%s" % (shape, n, (out or {}).get("crash", "")[:600]))
+            continue
+        gets = [e for e in out["ev"] if e["op"] == "get"]
+        want = "\n".join(x.strip(" \t") if k else x for k, x in enumerate(val.split("\n")))      # continuation lines come back without their indentation
+        got = gets[0].get("out") if gets else None
+        norm = lambda v: None if v is None else "\n".join(x.strip(" \t") for x in v.split("\n"))
+        if len(gets) != 2 or gets[0]["rc"] != "ECONF_SUCCESS" or norm(got) != norm(val) or gets[1].get("out") != "1":
+            verdict.violation("C07:long:%s" % shape, {"kind": "long", "len": n, "shape": shape, "d": d, "c": c, "got_len": len(got or ""), "rc": [g["rc"] for g in gets]},
+                              "%s value with a line of %d bytes (delimiter %r comment %r): set %d chars, after econf_writeFile + econf_readFile %s chars came back (%s); the following key reads %r" % (
+                                  shape, n, d, c, len(val), len(got or ""), gets[0]["rc"] if gets else "?", gets[1].get("out") if len(gets) > 1 else None))
+        else:
+            ok += 1
+    return ok
+
+
 def features(rt, it):
     f = []
     ents = rt["ents"]
@@ -184,6 +223,7 @@ def check(pid, tier, seed):
                               "round trip rejected by Trace_RoundTrip (delimiter %r comment %r, %s):\nwritten file:\n%s\nexpected observable %s\nbefore writing      %s\nspec's parse of the written bytes %s\nafter reading back  %s (%s)" % (
                                   chr(it["d"]), chr(it["c"]), it["label"], written, canon(x["spec"]), canon(e["rt_before"]), canon(x.get("written_parsed")), canon(e["rt_after"]), e["rc_read"]))
         acc = len(good) - len(mism) - skipped
+    acc += long_values(exe, verdict, tier)
     from . import p_econf
     nmix = 150 if tier == "quick" else 4000
     accmix = p_econf.run_mixed(exe, random.Random(seed + 77), nmix, verdict, "C07")
@@ -195,7 +235,7 @@ def check(pid, tier, seed):
     samples = [{"history": it["label"], "d": chr(it["d"]), "c": chr(it["c"]), "expected": it["want"]} for it in items[500:502] if it.get("want")]
     cov = {"states": states, "transitions": states, "traces_validated_against_impl": ok + acc,
            "evaluations": len(items), "distinct_nontrivial": nt,
-           "rule": "MC_RoundTrip: every object reachable by <= %d setter calls over {group-less,A,B} x {x,y} x {\"\", v, 'a b', two-line value} (every interleaving, re-opened sections, overwrites) x (delimiter,comment) in {= #, : ;, space #, = ;}, and every object parsed from a conventional file of <= 3 lines (quoted values, comments before / after, continuation lines) x {=,space} x {#,;}: RoundTrips on the model; each exported case built in the library, written, read back, observable compared before/after (%d cases); + %d random histories of <= 40 calls and %d random conventional files whose written bytes are re-parsed by the specification (Trace_RoundTrip; %d outside the unambiguous class skipped); + %d mixed API histories in which written files are read back, merged and written again, validated against the root specification Econf.tla. non-trivial = group-less key after a sectioned one, re-opened section, multi-line value or comment." % (
+           "rule": "MC_RoundTrip: every object reachable by <= %d setter calls over {group-less,A,B} x {x,y} x {\"\", v, 'a b', two-line value} (every interleaving, re-opened sections, overwrites) x (delimiter,comment) in {= #, : ;, space #, = ;}, and every object parsed from a conventional file of <= 3 lines (quoted values, comments before / after, continuation lines) x {=,space} x {#,;}: RoundTrips on the model; each exported case built in the library, written, read back, observable compared before/after (%d cases); + %d random histories of <= 40 calls and %d random conventional files whose written bytes are re-parsed by the specification (Trace_RoundTrip; %d outside the unambiguous class skipped); + values set through the API whose single / first / middle / last line is BUFSIZ-2 .. BUFSIZ+1, 2*BUFSIZ+3 and 20 000 (thorough 70 000) bytes long, written and read back; + %d mixed API histories in which written files are read back, merged and written again, validated against the root specification Econf.tla. non-trivial = group-less key after a sectioned one, re-opened section, multi-line value or comment." % (
                3 if tier == "quick" else 4, len(items) - 2 * nr, nr, nr, skipped, nmix),
            "samples": samples, "exhaustive": tier == "thorough", "skipped_outside_class": skipped,
            "trusted_base": ["TLC 1.8.0", "gcc ASan/UBSan", "drv.c"]}
